@@ -805,3 +805,55 @@ example : (run (fun _ _ => 0) (auxProg intFns { intAux with asg := id } intPar .
     (fun _ _ => -7)).mem 0 0 = -1 := by
   rw [C10.bridge_copy_path_exact intFns _ (fun _ => rfl)]
   simp [intFns]
+
+/-! ### Extra round: `x = out =` the closed-over element itself -/
+
+namespace OdlModel.C10
+/-- `P(d, out=d)` for `d` the closed-over data object in buffer `d` (2 = `g`, 3 = element `sigma`)
+leaves in it what the non-aliased call on a COPY of `d` (`x` = buffer 0 holding the same values,
+`out` = buffer 1 with arbitrary content) writes to `out`. -/
+def SelfAliasSafe {K} (P : Stmt K) (d : Nat) : Prop :=
+  ∀ (jk jk' : Nat → Vec K) (m : Nat → Vec K) (j : Vec K),
+    (run jk P d d m).mem d =
+      (run jk' P 0 1 (fun b => if b = 0 then m d else if b = 1 then j else m b)).mem 1
+end OdlModel.C10
+
+/-- The three bodies repaired by /repo 94ea956 / bc301ca, as they are now: called in place ON
+THEIR OWN DATA ELEMENT — `ProximalConvexConjKL` on `g`, `ProximalConvexConjL2Squared` and
+`ProximalL2Squared` (element `sigma`, with or without `g`) on `sigma` and on `g` — they leave in
+it what the non-aliased call on a copy returns; every scalar type, no arithmetic law. Executed by
+the driver (`self=` runs) and compared with the real calls in the stratum self-alias. -/
+theorem C10.self_alias_safe_repaired {K : Type} [Add K] [Sub K] [Mul K] [Div K] [Neg K]
+    [OfNat K 0] [OfNat K 1] (F : Fns K) (P : Par K) :
+    SelfAliasSafe (prog F P (.ccKL true)) 2 ∧
+    SelfAliasSafe (prog F P (.ccL2Sq true true)) 3 ∧ SelfAliasSafe (prog F P (.ccL2Sq true true)) 2 ∧
+    SelfAliasSafe (prog F P (.ccL2Sq true false)) 3 ∧
+    SelfAliasSafe (prog F P (.l2Sq true true)) 3 ∧ SelfAliasSafe (prog F P (.l2Sq true true)) 2 ∧
+    SelfAliasSafe (prog F P (.l2Sq true false)) 3 := by
+  refine ⟨?_, ?_, ?_, ?_, ?_, ?_, ?_⟩ <;> intro jk jk' m j <;>
+    simp [run, exec, prog, env0, Env.set, St.write, srcVals,
+      ite_fst', ite_snd', ite_mem', ite_app']
+
+namespace OdlModel.C10
+/-- `ProximalL2Squared._call` (element `sigma`, data `g`) as it was BEFORE /repo bc301ca: no copy
+of `sig` when `sig is out` (OLD variant, sensitivity only). -/
+def l2SqOld {K} [Add K] [Mul K] [Div K] [OfNat K 1] (F : Fns K) (P : Par K) : Stmt K :=
+  .ifIs .x .out
+    (.new .t2 [.g] (fun a i => F.two * P.lam * a 0 i) ;;
+     .new .tmp [.sig, .t2] (fun a i => a 0 i * a 1 i) ;;
+     .set .out [.x, .tmp] (fun a i => 1 * a 0 i + 1 * a 1 i))
+    (.new .t2 [.g] (fun a i => F.two * P.lam * a 0 i) ;;
+     .set .out [.sig, .t2] (fun a i => a 0 i * a 1 i) ;;
+     .set .out [.x, .out] (fun a i => 1 * a 0 i + 1 * a 1 i)) ;;
+  .new .t1 [.sig] (fun a i => 1 + F.two * a 0 i * P.lam) ;;
+  .set .out [.out, .t1] (fun a i => a 0 i / a 1 i)
+end OdlModel.C10
+
+/-- Sensitivity (former finding C10-F5): without the guard `if sig is out: sig = sig.copy()` the
+body is NOT safe on its own step-size element (witness over ℤ: sigma = 3, g = 1, lam = 1). -/
+theorem C10.l2sq_without_sigma_guard_fails : ¬ SelfAliasSafe (l2SqOld intFns intPar) 3 := by
+  intro h
+  have := congrFun (h (fun _ _ => 0) (fun _ _ => 0)
+    (fun b _ => if b = 3 then 3 else 1) (fun _ => 0)) 0
+  revert this
+  simp [run, exec, l2SqOld, env0, Env.set, St.write, srcVals, intFns, intPar]
